@@ -2,6 +2,7 @@ package loadbalancer
 
 import (
 	"fmt"
+	"strings"
 	"testing"
 	"time"
 
@@ -27,7 +28,10 @@ type c03Params struct {
 // backend that answers after 11 s, one that hangs for 61 s before the transport gives up, one
 // whose answer takes over an hour
 var c03Events = []string{"req-ok", "req-500", "req-refused", "req-abort", "clock+1.1s", "clock+11s", "req-garbage", "req-eof", "req-timeout", "req-103-then-500",
-	"slow-11s-ok", "slow-61s-timeout", "slow-3601s-500", "slow-11s-abort", "req-503-retry-after-a-day"}
+	"slow-11s-ok", "slow-61s-timeout", "slow-3601s-500", "slow-11s-abort", "req-503-retry-after-a-day",
+	// the body of a 200 arrives in three pieces with the backend silent in between: for 29 s
+	// (less than backend_read, the whole body must arrive) and for 31 s (the proxy must give up)
+	"body-silent-29s", "body-silent-31s"}
 
 // with active checks: one probe round in which every backend answers the probe that way
 var c03ProbeEvents = []string{"probes-ok", "probes-500", "probes-refuse", "probes-garbage", "probes-eof", "probes-timeout"}
@@ -72,9 +76,19 @@ func (in *c03Inst) Step(ev int) *vh.HViol {
 		in.out = "probed"
 		return nil
 	}
-	mode := []string{"ok", "500", "refuse", "abort", "", "", "garbage", "eof", "timeout", "103+500", "slow11+ok", "slow61+timeout", "slow3601+500", "slow11+abort", "500ra"}[ev]
+	mode := []string{"ok", "500", "refuse", "abort", "", "", "garbage", "eof", "timeout", "103+500", "slow11+ok", "slow61+timeout", "slow3601+500", "slow11+abort", "500ra", "pieces29000ms+ok", "pieces31000ms+ok"}[ev]
 	res := in.k.requestMode("10.0.0.1", mode)
 	in.out = fmt.Sprintf("%d/%v", res.Status, res.Aborted)
+	switch mode {
+	case "pieces29000ms+ok":
+		if res.Status == 200 && (res.Aborted || !strings.HasPrefix(res.Body, "ok from ")) {
+			return &vh.HViol{Key: "C03/seq/patient-backend-cut-off", What: fmt.Sprintf("a backend that is silent for 29 s between the pieces of its answer (backend_read is 30 s) had its answer cut off: body %q aborted=%v", res.Body, res.Aborted)}
+		}
+	case "pieces31000ms+ok":
+		if res.Status == 200 && !res.Aborted && strings.HasPrefix(res.Body, "ok from ") {
+			return &vh.HViol{Key: "C03/seq/silent-backend-waited-for", What: fmt.Sprintf("a backend that was silent for 31 s in the middle of its answer (backend_read is 30 s) was waited for: the client got the whole body %q after more than a minute", res.Body)}
+		}
+	}
 	if res.Status == 0 && !res.Aborted {
 		return &vh.HViol{Key: "C03/seq/request-without-answer", What: "a request ended with neither a response nor an aborted connection"}
 	}
